@@ -14,7 +14,7 @@ func c04(c *Ctx) {
 	for _, n := range []string{"rtp.(Header).MarshalTo", "rtp.(*Packet).MarshalTo", "rtp.(Header).Marshal", "rtp.(Packet).Marshal", "rtp.(Header).MarshalSize", "rtp.(Packet).MarshalSize"} {
 		f := p.Func(n)
 		if f == nil {
-			r.Fatalf("anchor %s missing", n)
+			missingAnchor(r, n)
 			continue
 		}
 		entries = append(entries, f)
